@@ -30,7 +30,8 @@ RULE = ("mpn_mulmod_2expm1: b odd / even, below and above MULMOD_2EXPM1_THRESHOL
         "halves = -1 (upper half = lower half + 1) for y, z, both, neither; 0; 2^b - 1")
 
 PINS = [("mpz/powm.c", "mpz_powm"), ("mpn/generic/binvert.c", "mpn_binvert_itch"), ("mpn/generic/mulmod_2expm1.c", None), ("gmp-impl.h", "mpn_mulmod_bnm1_next_size"), ("gmp-impl.h", "mpn_mulmod_bnm1_itch"),
-        ("gmp-impl.h", "mpn_half")]
+        ("gmp-impl.h", "mpn_half"),
+        ("mpn/generic/mulmod_2expp1_basecase.c", "mpn_mulmod_2expp1_basecase")]
 
 def crt(za, zb, h):
     """z with z = za mod 2^h-1, z = zb mod 2^h+1, 0 <= z < 2^(2h)-1"""
